@@ -1,11 +1,19 @@
 """Which units decide which property (DESIGN.md 7, appendix D.2)."""
-from . import api_ops, seam, walks, config, types_c17, pythonic, tables, wire_community, wire_v3, udp
+from . import api_ops, seam, walks, config, types_c17, pythonic, tables, wire_community, wire_v3, udp, x690_c20
 
 VC = ("contract-based deductive verification: verification conditions generated on every run from the real ASTs "
       "(symbolic execution of each function against its sidecar contract, callee contracts at the seams) and "
       "discharged by z3 (cvc5 for z3-unknowns); ")
 
 PROPS = {
+    "C20": {
+        "units": [x690_c20.units, wire_community.units_rx, wire_community.units_c19, wire_v3.units_rx], "level": "other", "design_ref": "7.20",
+        "technique": VC + "x690 get_value_slice / decode / Sequence.decode_raw verified FROM THE SITE-PACKAGES SOURCE on an arbitrary byte "
+                     "array (progress contracts, loop variant); static obligations over the receive path's ASTs (acyclic call graph, no "
+                     "loop-index-sized bignum arithmetic); frame condition of the receive path (an exception leaves the client usable)",
+        "trusted_base": ["time and memory are an abstract cost (loop iterations, items allocated, operand sizes); real CPU/RSS only in stand-ins",
+                         "x690 X690Type.get / from_bytes are loop-free contract slots in the decode unit"],
+    },
     "C14": {
         "units": [api_ops.units, seam.units, walks.units_c14, wire_v3.units_emit], "level": "other", "design_ref": "7.14",
         "technique": VC + "rely/guarantee under cooperative scheduling: control passes to other tasks only at an await; every "
